@@ -65,7 +65,8 @@ def r15_1(prog, out):
         # the limit parameter: the integer parameter of the popper
         params = [i for i in range(2, b.arg_count + 1) if b.local_ty(i) in ("u16", "u32", "usize", "u64", "i32")]
         if len(params) != 1:
-            raise CheckBroken("popper %s has %d integer parameters" % (name, len(params)))
+            out.undecided("%s:no-limit-parameter" % name, prog.loc(bid), "this body removes from the backlog but takes no batch limit (%d integer parameters)" % len(params))
+            continue
         p = params[0]
         pushes = [bb for bb, t in bi.calls(lambda c: c.path == "std::vec::Vec::<T, A>::push") if prog.anchors.ty("PulledMessage") in (b.operand_ty(t.args[1]) or "")]
         if not pushes:
@@ -193,9 +194,7 @@ def r15_3(prog, out):
                                 if op.place is not None:
                                     cells |= set(prog.receiver_origin(bi, op.place).cells())
                 if ("crate::pubsub_proto::PullRequest", "return_immediately") in cells:
-                    for x in bi.cfg.reach:
-                        if bi.cfg.dominates(t.otherwise, x):
-                            ri.add(x)
+                    ri |= bi.cfg.edge_dominated(blk.idx, t.otherwise)
         if bb in ri:
             out.holds(key, bi.loc(bb), "possibly empty response only when return_immediately is set")
         else:
